@@ -49,14 +49,14 @@ HISTORY = {
     "custom-map-writable1": ("low", ".map identifier=1 bank_range=0x00, 0x6f addr_range=0x8000, 0xffff mask=0x8000 writable=1\n*=0x8000\nm:\n.db hv, 1, 2, 3, 4, 5, 6, 7, 8, 9\n.dl m\n*=0x018000\n.db 1\n", {}),
     "defs-macro": ("low", "*=0x8000\n.macro m(a) {\n.db a, 0x99\n}\n.macro w(c) {\n{{c}}\n}\nm(hv)\nw({\nnop\n})\n", {}),
     "defs-symbols": ("low", "*=0x9000\nsym = hv\nx := hv + 1\nstart:\nloop:\nl:\n.dw sym, x\n.scope ns {\nl:\n}\n", {}),
-    "defs-table": ("low", "*=0x8000\n.table 'h.tbl'\n.text 'ab'\n", {"h.tbl": "7f=a\n7e=b\n"}),
+    "defs-table": ("low", "*=0x8000\n.table 'h.tbl'\n.text 'ab'\n.ascii 'ab'\nt_end:\n.dl t_end\n", {"h.tbl": "7f7f7f=a\n7e=b\n"}),
     "relocated": ("low", "*=0x8000\n@=0x7e1000\nr:\n.dl r\n.db hv\n", {}),
     # the same file names as the probes use, holding other contents
     "same-file-names": ("low", "*=0x8000\n.table 'p.tbl'\n.text 'ab'\n.incbin 'p.bin'\n.include 'p.s'\n.include_ips 'p.ips', 0x10\n",
-                        {"p.tbl": "71=a\n72=b\n", "p.bin": b"\x99\x98\x97\x96\x95", "p.s": ".db 0x77, 0x78\nincluded_label:\n", "p.ips": b"PATCH\x00\x00\x40\x00\x03abcEOF"}),
+                        {"p.tbl": "7171=a\n72=b\n", "p.bin": b"\x99\x98\x97\x96\x95", "p.s": ".db 0x77, 0x78\nincluded_label:\n", "p.ips": b"PATCH\x00\x00\x40\x00\x03abcEOF"}),
     "fail-inside-include": ("low", "*=0x8000\n.db 1\n.include 'p.s'\n.db 2\n", {"p.s": "nop\nlda.q 0\n"}),
     "fail-syntax-inside-include": ("low", "*=0x8000\n.include 'p.s'\n", {"p.s": "{\nnop\n"}),
-    "fail-inside-table": ("low", "*=0x8000\n.table 'p.tbl'\n.text 'ab'\n.dw nosuch\n", {"p.tbl": "61=a\n62=b\n"}),
+    "fail-inside-table": ("low", "*=0x8000\n.table 'p.tbl'\n.text 'ab'\n.dw nosuch\n", {"p.tbl": "616161=a\n62=b\n"}),
     "fail-inside-ips": ("low", "*=0x8000\n.include_ips 'p.ips', 0\n", {"p.ips": b"PATCH\x00\x01"}),
     "file-api": ("low", None, {}),
     "cli": ("low", None, {}),
@@ -69,7 +69,7 @@ PROBES = {
     "undef-symbols": ("low", "*=0x8000\n.dw sym\n", {}),
     "undef-x": ("low", "*=0x8000\n.dw x + 1\n", {}),
     "no-table": ("low", "*=0x8000\n.text 'ab'\n", {}),
-    "own-table": ("low", "*=0x8000\n.table 'p.tbl'\n.text 'ab'\n", {"p.tbl": "01=a\n02=b\n"}),
+    "own-table": ("low", "*=0x8000\n.table 'p.tbl'\n.text 'ab'\nafter:\n.dl after\n", {"p.tbl": "01=a\n02=b\n"}),
     "own-incbin": ("low", "*=0x8000\n.incbin 'p.bin'\nafter:\n.dl after, p_bin, p_bin__size\n", {"p.bin": b"\x01\x02\x03"}),
     "own-include": ("low", "*=0x8000\n.include 'p.s'\nafter:\n.dl after\n", {"p.s": "lda.w #pv\n"}),
     "own-ips": ("low", "*=0x8000\n.db pv\n.include_ips 'p.ips', 0\n", {"p.ips": b"PATCH\x00\x01\x00\x00\x02xyEOF"}),
@@ -90,7 +90,7 @@ EXPECT = {
     "own-incbin": [(0, [1, 2, 3] + _le3(0x8003) + _le3(0x8000) + _le3(3))],
     "own-include": [(0, [0xA9, "pv.lo", "pv.hi"] + _le3(0x8003))],
     "own-ips": [(0x100, [ord("x"), ord("y")]), (0, ["pv.lo"])],
-    "own-table": [(0, [1, 2])],
+    "own-table": [(0, [1, 2] + _le3(0x8002))],
     "simple": [(0, [0xA9, "pv.lo", "pv.hi", 0xCA, 0xD0, 0xFD] + _le3(0x8000) + _le3(0x8003))],
     "high": [(0x10000, ["pv.lo", "pv.hi"] + _le3(0xC10000))],
     "own-map": [(0, _le3(0x108000))],
